@@ -43,41 +43,44 @@ theorem C01_frame (m1 m2 : Bytes) (h1 : AllBytes m1) (h2 : AllBytes m2) (pos bl 
 
 /-- **C01, flat composite tier** — `Request.encode` then `Request.decode` at the API level of the model.
     For every request/response/structure whose parameters are (at most 4000) VALUE parameters over `A_INT32`
-    standard-length DOPs with the identical compu method — *any* encodings (2C/1C/SM), bit lengths ≥ 1, bit
+    or `A_UINT32` standard-length DOPs with the identical compu method — *any* encodings (2C/1C/SM; none for
+    unsigned), bit lengths 1–64, bit
     positions, byte orders, explicit BYTE-POSITIONs in any order or none — and every assignment of
     representable values (`values` may list them in any order; no unknown names): if the encoder returns a PDU
     without an overlap warning, decoding that PDU yields exactly the assigned values, parameter by parameter.
     Missing relative to the full statement: the other parameter kinds, base types, diag-coded types, compu
     methods, nested structures and fields (executable model + correspondence only). -/
-theorem C01_roundtrip_flat (ovs : List (Obj × Int)) (hlen : ovs.length ≤ 4000) (values : List (String × PVal))
+theorem C01_roundtrip_flat (ovs : List (Obj × IVal)) (hlen : ovs.length ≤ 4000) (values : List (String × PVal))
     (trig : Option Bytes)
-    (hok : ∀ ov ∈ ovs, ov.1.ok ∧ Spec.representable ov.1.enc ov.1.bl ov.2)
-    (hlook : ∀ ov ∈ ovs, lookup ov.1.name values = some (.atom (.int ov.2)))
+    (hok : ∀ ov ∈ ovs, ov.1.ok ∧ ov.1.inRange ov.2)
+    (hlook : ∀ ov ∈ ovs, lookup ov.1.name values = some (.atom ov.2))
     (hknown : values.any (fun kv => !((ovs.map fun ov => ov.1.toParam).any fun p => p.name == kv.1)) = false)
     (pdu : Bytes)
     (henc : encodeMessage none (ovs.map fun ov => ov.1.toParam) (.dict values) trig true = .ok (pdu, 0)) :
     ∃ cursor, decodeMessage none (ovs.map fun ov => ov.1.toParam) pdu true =
-      .ok (.dict (ovs.map fun ov => (ov.1.name, PVal.atom (.int ov.2))), cursor) :=
+      .ok (.dict (ovs.map fun ov => (ov.1.name, PVal.atom ov.2)), cursor) :=
   flat_roundtrip ovs hlen values trig hok hlook hknown pdu henc
 
-/-! non-vacuity of `C01_roundtrip_flat`: three parameters, the second explicitly positioned *behind* the third,
-    sub-byte objects sharing a byte, low-high byte order, values given in a different order -/
-def exObjs : List (Obj × Int) :=
-  [(⟨"a", none, some 4, none, true, 4⟩, -3), (⟨"b", some 3, none, some .sm, false, 16⟩, -300), (⟨"c", some 0, some 0, some .onec, true, 4⟩, 5),
-   (⟨"d", some 1, none, none, false, 12⟩, 1000)]
-def exValues : List (String × PVal) := [("d", .atom (.int 1000)), ("a", .atom (.int (-3))), ("c", .atom (.int 5)), ("b", .atom (.int (-300)))]
+/-! non-vacuity of `C01_roundtrip_flat`: five parameters, the second explicitly positioned *behind* the third,
+    sub-byte objects sharing a byte, low-high byte order, an unsigned object, values given in a different order -/
+def exObjs : List (Obj × IVal) :=
+  [(⟨"a", none, some 4, none, true, 4, .int32⟩, .int (-3)), (⟨"b", some 3, none, some .sm, false, 16, .int32⟩, .int (-300)),
+   (⟨"c", some 0, some 0, some .onec, true, 4, .int32⟩, .int 5), (⟨"d", some 1, none, none, false, 12, .int32⟩, .int 1000),
+   (⟨"u", some 5, some 1, none, false, 10, .uint32⟩, .int 1023)]
+def exValues : List (String × PVal) :=
+  [("d", .atom (.int 1000)), ("u", .atom (.int 1023)), ("a", .atom (.int (-3))), ("c", .atom (.int 5)), ("b", .atom (.int (-300)))]
 example : (encodeMessage none (exObjs.map fun ov => ov.1.toParam) (.dict exValues) none true).toOption
-    = some ([0xd5, 0xe8, 0x03, 0x2c, 0x81], 0) := by decide +kernel
-example : ∀ ov ∈ exObjs, ov.1.ok ∧ Spec.representable ov.1.enc ov.1.bl ov.2 := by
+    = some ([0xd5, 0xe8, 0x03, 0x2c, 0x81, 0xfe, 0x07], 0) := by decide +kernel
+example : ∀ ov ∈ exObjs, ov.1.ok ∧ ov.1.inRange ov.2 := by
   intro ov h
   simp only [exObjs, List.mem_cons, List.mem_nil_iff, or_false] at h
-  rcases h with rfl | rfl | rfl | rfl <;> simp [Obj.ok, int32Known, Spec.representable]
-example : ∀ ov ∈ exObjs, lookup ov.1.name exValues = some (.atom (.int ov.2)) := by
+  rcases h with rfl | rfl | rfl | rfl | rfl <;> simp [Obj.ok, Obj.encOk, Obj.inRange, int32Known, int32InRange]
+example : ∀ ov ∈ exObjs, lookup ov.1.name exValues = some (.atom ov.2) := by
   intro ov h
   simp only [exObjs, List.mem_cons, List.mem_nil_iff, or_false] at h
-  rcases h with rfl | rfl | rfl | rfl <;> simp [lookup, exValues]
+  rcases h with rfl | rfl | rfl | rfl | rfl <;> simp [lookup, exValues]
 
-/-- **C01, nested-structure tier.** Requests/responses/structures built from `A_INT32` VALUE parameters and
+/-- **C01, nested-structure tier.** Requests/responses/structures built from `A_INT32` / `A_UINT32` VALUE parameters and
     arbitrarily deeply nested STRUCTURE-valued parameters, each positioned explicitly (BYTE-POSITION relative to
     the enclosing structure's first byte) or implicitly (behind its predecessor); sibling short names distinct.
     `(Trees.pair ts).val` is the value tree (nested dictionaries). If the strict encoder returns a PDU with no
@@ -93,11 +96,11 @@ theorem C01_roundtrip_struct (ts : List Tree) (hneed : Trees.need ts + 2 ≤ mod
 /-! non-vacuity: a structure at offset 2 inside the request, containing a sub-byte object and a nested structure
     positioned explicitly inside it; the last top-level parameter sits *before* the structure -/
 def exTrees : List Tree :=
-  [.int ⟨"sid", none, none, none, true, 8⟩ 0x22,
-   .struct "s" (some 2) [.int ⟨"a", none, some 2, some .sm, true, 5⟩ (-9),
-                          .struct "inner" (some 3) [.int ⟨"x", none, none, none, false, 16⟩ (-2)],
-                          .int ⟨"b", some 1, none, some .onec, true, 16⟩ (-256)],
-   .int ⟨"y", some 1, none, none, true, 8⟩ 127]
+  [.int ⟨"sid", none, none, none, true, 8, .uint32⟩ (.int 0x22),
+   .struct "s" (some 2) [.int ⟨"a", none, some 2, some .sm, true, 5, .int32⟩ (.int (-9)),
+                          .struct "inner" (some 3) [.int ⟨"x", none, none, none, false, 16, .int32⟩ (.int (-2))],
+                          .int ⟨"b", some 1, none, some .onec, true, 16, .int32⟩ (.int (-256))],
+   .int ⟨"y", some 1, none, none, true, 8, .int32⟩ (.int 127)]
 example : (encodeMessage none (Trees.toParams exTrees) (.dict (Trees.pair exTrees).val) none true).toOption
     = some ([0x22, 0x7f, 0x64, 0xfe, 0xff, 0xfe, 0xff], 0) := by decide +kernel
 example : Trees.need exTrees + 2 ≤ modelFuel := by decide
